@@ -262,7 +262,27 @@ def check_pwdline(case, ev):
     return None
 
 
-REPLAY = {"pwdlines": check_pwdline, "bulk": check_bulk, "masks": check_mask_pred, "masks_random": check_mask_pred, "text": check_text, "text_long": check_text, "collide": check_collide}
+def check_mixedlist(case, ev):
+    """A list of preserved networks in which an IPv6 network stands between the IPv4 ones (accepted: the
+    option is documented as "IP addresses or networks"): addresses inside every IPv4 network of the list
+    are still emitted as written.  case: {salt, B, networks: [...], probes: [int]}"""
+    from netconan.ip_anonymization import IpAnonymizer, anonymize_ip_addr
+
+    an, exc = guarded(lambda: IpAnonymizer(case["salt"], None, list(case["networks"]), preserve_suffix=case["B"]))
+    if exc is not None:
+        return core.exc_finding(exc, case, "ctor/")
+    ev.case(case, True, ["ipv6-network-in-the-list"])
+    for x in case["probes"]:
+        line = "ip address %s 255.255.255.0" % G.v4_canon(x)
+        out, exc = guarded(anonymize_ip_addr, an, line, bool(case.get("undo")))
+        if exc is not None:
+            return core.exc_finding(exc, case, "text/")
+        if out != line:
+            return Finding("text/preserved-token-wrong:list-with-an-ipv6-network", "networks=%r: %r -> %r" % (case["networks"], line, out), case)
+    return None
+
+
+REPLAY = {"mixedlist": check_mixedlist, "pwdlines": check_pwdline, "bulk": check_bulk, "masks": check_mask_pred, "masks_random": check_mask_pred, "text": check_text, "text_long": check_text, "collide": check_collide}
 
 _SEPS = st.sampled_from([" ", "  ", " , ", "\t", " (", ") ", " - ", ";", " netmask ", " mask ", " wildcard ", "|", "=", " eq "])
 
@@ -394,6 +414,22 @@ def t_collide(shard, nshards, seed, ev, known, n=1000):
     return core.hyp_drive(_collide_case(), check_collide, n, seed, ev, known, check_name="collide")
 
 
+@st.composite
+def _mixed_case(draw):
+    v4 = draw(st.one_of(G.cidr_list(min_size=1, max_size=3, lengths=st.integers(8, 30)), st.just(list(G.RFC1918))))
+    k = draw(st.integers(0, len(v4)))
+    nets = v4[:k] + [draw(st.sampled_from(["2001:db8::/32", "fe80::/10", "2001:db8:1::/48"]))] + v4[k:]
+    probes = []
+    for p in v4:
+        v, l = G.parse_cidr(p)
+        probes += [x for x in (v | (draw(G.u32) & ((1 << (32 - l)) - 1)) for _ in range(2)) if not G.is_mask(x)]
+    return {"salt": draw(G.salts), "B": draw(st.sampled_from([0, 8, 2])), "networks": nets, "probes": probes, "undo": draw(st.integers(0, 3)) == 0}
+
+
+def t_mixedlist(shard, nshards, seed, ev, known, n=300):
+    return core.hyp_drive(_mixed_case(), check_mixedlist, n, seed, ev, known, check_name="mixedlist")
+
+
 def t_pwdlines(shard, nshards, seed, ev, known, n=400):
     return core.hyp_drive(_pwdline_case(), check_pwdline, n, seed, ev, known, check_name="pwdlines")
 
@@ -405,6 +441,7 @@ def plan(tier):
         Task("masks_random", t_masks_random, shards=1 if q else 8, n=3000 if q else 100000),
         Task("text", t_text, shards=3 if q else 16, n=1000 if q else 15000),
         Task("text_long", t_text_long, shards=3 if q else 6, n=12000 if q else 30000),
+        Task("mixedlist", t_mixedlist, shards=1 if q else 8, n=300 if q else 6000),
         Task("pwdlines", t_pwdlines, shards=2 if q else 8, n=500 if q else 8000),
         Task("collide", t_collide, shards=3 if q else 16, n=1700 if q else 20000),
         Task("bulk", t_bulk, shards=3 if q else 8, n=1 if q else 4, size=24000 if q else 60000),
